@@ -199,6 +199,7 @@ func main() {
 		return
 	}
 	transportVersions()
+	producePrepared()
 	selectVersions()
 	r := gen.New()
 	word := func() string { return "w" + hex.EncodeToString(gen.Bytes(r, 1+r.Intn(6))) }
